@@ -293,6 +293,11 @@ pub fn gen_case(prop: &str, seed: u64) -> Case {
             _ => {}
         }
     }
+    // (C13 / C05: the store is written without first keys and reopened with them, and back)
+    if matches!(prop, "C13" | "C05") && krng.chance(1, 10) {
+        knobs.record_first_key = false;
+        case.params.insert("flip_first_key".into(), 1);
+    }
     case.knobs = Some(knobs);
     case
 }
